@@ -276,7 +276,8 @@ reg("C14",
          "averaged pixels), for depth-1 populations enumerated by TLC and harness families to depth 3 (NaNs, all-NaN leaves that are not stored, zero / -0.0 extremes, integer FITS). "
          "The FITS pyramids are written by the real PyramidIO (some leaves twice via update_image with a widening range), cascaded by cascade_images / CLI / Builder.cascade serially "
          "and with 2-3 real processes; DATAMIN/DATAMAX of every tile (astropy), Builder's imageset data_min/data_max and the DataMin/DataMax attributes of the written index_rel.wtml "
-         "are compared at float32 precision with TLC's ranges.",
+         "are compared at float32 precision with TLC's ranges. The tile_fits / FitsTiler TOAST workflow is bound as well: 2-3 images of disjoint footprints in every input order, the finite "
+         "range of every leaf file read back and handed to TLC as the leaf table, TLC's expected ancestor/root ranges compared with every tile's cards, the returned Builder and the WTML.",
     note="Leaves written by toasty (some twice via update_image). Pixels finite, NaN or +/-inf: the range is over the FINITE values only, a tile with no finite value beneath it "
          "must carry no DATAMIN/DATAMAX card; finite values exactly representable in float32. Outside the domain (skipped by the spec's Init): pyramids in which a whole tile vanishes "
          "only because +inf and -inf cancel in every block. Builder/WTML runs only on pyramids whose root has a finite value beneath it. Bounds as for C02 (T=2/4/8, depth<=3).",
